@@ -13,7 +13,7 @@ import (
 	"verif/mc/ref"
 )
 
-var hostileKeys = []string{"", "a/b", "m~n", "~1", "é", "0", "01", "-", "+1", "1e3", "a", "-1", "~0~1/"}
+var hostileKeys = []string{"", "a/b", "m~n", "~1", "é", "0", "01", "-", "+1", "1e3", "a", "-1", "~0~1/", "a/b/c", "~~", "//", " ", "A", "007", "-0", "1.5"}
 
 // HostileDocs: documents whose keys need pointer escaping, look like numbers or are "-".
 func HostileDocs() *TextSet {
